@@ -98,6 +98,10 @@ class C11(Prop):
         "NV.C11.callAfter_ref",
         "NV.C11.finish_ref",
         "NV.C11.tick_eq_ref",
+        "NV.C11.quiet_step",
+        "NV.C11.accepted_quiet_when_off",
+        "NV.C11.judge_ok_implies_quiet_when_off",
+        "NV.C11.no_beat_while_heart_beats_off",
         "NV.C11.accepted_ctx_clean",
         "NV.C11.judge_ok_implies_ctx_clean",
         "NV.C11.context_clean_every_beat",
